@@ -2,7 +2,8 @@
    (sylvia-derive/src/types/msg_variant.rs) translated on every run with the closure of its `filter_map` lifted into a function
    of its own (GenImpGenerics.generics_fns, Facts/VariantsRefine.v). Statements only. *)
 From Coq Require Import String List Bool.
-Require Import SV.Model.Imp SV.Model.GenImpGenerics SV.Facts.ImpFacts SV.Facts.MacroRefine SV.Facts.GenericsRefine SV.Facts.VariantsRefine.
+Require Import SV.Model.Imp SV.Model.GenImpGenerics SV.Model.GenImpVariants SV.Facts.ImpFacts SV.Facts.MacroRefine SV.Facts.ParseRefine SV.Facts.ParseFacts
+               SV.Facts.GenericsRefine SV.Facts.VariantsRefine SV.Facts.ImplRefine.
 Import ListNotations.
 Open Scope string_scope.
 Open Scope list_scope.
@@ -25,6 +26,29 @@ Theorem c01_translated_selected_methods : forall ty (ds : list desc) x,
   In x (filter (of_kind ty) ds) <-> In x ds /\ exists r, d_msg x = Some (ty, r).
 Proof. exact selected_methods. Qed.
 
+(* ... and from the ITEMS of the impl block / the trait, through three translated parts (`as_variants` + `VariantDesc::new` of
+   parser/variant_descs.rs, the attribute parser of parser/attributes/mod.rs, `MsgVariants::new`) put together in one program:
+   for EVERY list of items - methods with arbitrary attribute lists, and other items - the message of kind ty has one variant
+   per method whose FIRST well-formed `sv::msg(..)` names ty, in declaration order, and no other *)
+Theorem c01_translated_from_items_to_variants : forall d (items : list item) other ty gens wc kind,
+  kind = "ImplItem" \/ kind = "TraitItem" ->
+  let ds := descs_of items in
+  let sel := filter (of_kind ty) ds in
+  let used := map traversed sel in
+  calls ALL (S (S (S (S (S d))))) (if kind =? "ImplItem" then "ItemImpl::as_variants" else "ItemTrait::as_variants")
+        [block_v kind items other] (CVal (VArr (map desc_v ds))) /\
+  calls ALL (S (S (S d))) "MsgVariants::new" [VArr (map desc_v ds); kind_v ty; VArr gens; wc_v wc]
+    (CVal (VRec "MsgVariants"
+       [("variants", VArr (map variant_of sel)); ("used_generics", VArr used);
+        ("unused_generics", VArr (filter (fun g => negb (mem g used)) gens));
+        ("where_predicates", VArr (kept_preds used wc)); ("msg_ty", kind_v ty)])).
+Proof. exact translated_variants_of_an_item. Qed.
+
+Theorem c01_translated_selected_from_items : forall ty (items : list item),
+  filter (of_kind ty) (descs_of items) =
+  flat_map (fun i => match i with IMethod attrs sg _ => if is_message_of ty attrs then [desc_of attrs sg] else [] | IOther _ => [] end) items.
+Proof. exact selected_of_items. Qed.
+
 (* non-vacuity: exec, helper, query, exec: the exec message gets the first and the last, in that order *)
 Example c01_translated_variants_example :
   map d_sig (filter (of_kind "Exec")
@@ -36,3 +60,5 @@ Proof. vm_compute. reflexivity. Qed.
 
 Print Assumptions c01_translated_variants_of_one_kind.
 Print Assumptions c01_translated_selected_methods.
+Print Assumptions c01_translated_from_items_to_variants.
+Print Assumptions c01_translated_selected_from_items.
